@@ -223,7 +223,8 @@ def impl(op, a):
         else:
             h = PduHeader.unpack(bytes(a[0])); ok = 1
         conf = h.pdu_conf
-        return [[ok]] + _hstate(h) + run_history(a[2:], lambda l: apply_hdr_op(h, l), lambda: _hstate(h)) + _conf_view(conf)
+        out = [[ok]] + _hstate(h) + run_history(a[2:], lambda l: apply_hdr_op(h, l), lambda: _hstate(h)) + _conf_view(conf)
+        return out + _hstate(PduHeader.unpack(bytes(a[0])))       # the same octets decoded once more
     if op == 1200:
         return _fields(_hdr(a[0], a[1], a[2]))
     if op == 1201:
@@ -782,7 +783,9 @@ def oracle(case, ires, sres):
             r = check_hdr_state(st, flat, ires[3], "after unpack")
             if r:
                 return r
-            body = ires[4:-2]
+            if ires[-2:] != ires[2:4]:
+                return ("C05/PduHeader.unpack/second-decode-differs", "the same octets decoded again after the first header was edited: %s, first time %s" % (ires[-2:], ires[2:4]))
+            body = ires[4:-4]
         if len(body) != 4 * len(ops):
             return ("C05/PduHeader.history/shape", "result has %d lines for %d operations" % (len(body), len(ops)))
         steps = [tuple(body[4 * i:4 * i + 4]) for i in range(len(ops))]
